@@ -369,6 +369,11 @@ def shard(ctx):
             prog, na = add_outer_names_in_macro(rng, prog, gate="X" if use_native else "vfg", executable=use_native)
             rec.count("outer-aliases-used-in-a-macro-whose-parameter-shadows-their-constant", na)
         ov = make_override(rng, prog) if rng.random() < 0.6 else {}
+        if chain_ov is None and any(s_[0] == "let" and s_[1] == "vfk" for s_ in prog[1:]) and rng.random() < 0.6:
+            # the constant of the appended aliases is overridden (to a value that keeps every reference in range)
+            nreg = [s_[2] for s_ in prog[1:] if s_[0] == "register"][0]
+            ov = dict(ov, vfk=rng.randrange(nreg - 1))
+            rec.count("outer-aliases-constant-overridden")
         if chain_ov is not None:
             ov = chain_ov
         keep = None
